@@ -9,10 +9,31 @@ from mc.refmodel import RefAGP
 from mc.env import Snapshot
 
 
-def new_trial_x(snap, ref):
-    """x of the trial added since the reference model was last fed (by traversal, not by insertion log)"""
-    known = set(ref.xs)
-    return [it.x for it in snap.items if it.x not in known]
+def trial_order(run, snap):
+    """Curve coordinates of the trials in the order they were evaluated, or None when it cannot be
+    established.  Primary source: the evaluation log joined with the traversal of the search information
+    on the evaluated point (unique unless two trials share a grid cell); fallback: the coordinates a
+    harness listener saw in OnEndIteration, accepted only if they are exactly the traversed coordinates."""
+    log = run.problem.log
+    inner = snap.items[1:-1]
+    if len(inner) != len(log):
+        return None
+    by_y = {}
+    for it in inner:
+        by_y.setdefault(np.asarray(it.y, dtype=np.double).tobytes(), []).append(it.x)
+    xs = []
+    for (y, _) in log:
+        c = by_y.get(np.asarray(y, dtype=np.double).tobytes())
+        if not c or len(c) != 1:
+            xs = None
+            break
+        xs.append(c[0])
+    if xs is not None and len(set(xs)) == len(xs):
+        return xs
+    xl = list(getattr(run, "xlog", ()))
+    if len(xl) == len(log) and all(x is not None for x in xl) and sorted(xl) == [it.x for it in inner]:
+        return xl
+    return None
 
 
 def resolution_horizon(run, cfg):
@@ -46,28 +67,45 @@ class AGPVisitor:
         self.ties = 0
         self.boundary_choices = 0
         self.info = None
+        self.blind = False
+
+    new_from = 1
+    unjudged = 0
 
     def node(self, run, j, new):
+        """called after the DoGlobalIteration call that completed trial j; judges every trial made since
+        the previous call, in the order it was made (a call may make several trials)"""
         snap = Snapshot(run.solver)
         self.snap = snap
         msgs = []
         log = run.problem.log
-        xs = new_trial_x(snap, self.ref)
-        if len(log) != j or len(xs) != 1:
-            return [f"after iteration {j}: {len(log)} evaluations logged and {len(xs)} new coordinates in the "
-                    f"search information (expected {j} and 1)"]
-        x = xs[0]
-        y, z = log[-1]
-        if new:
-            m, info = self.ref.judge(x)
-            msgs += m
-            self.info = info
-            if info.get("ties", 1) > 1:
-                self.ties += 1
-            img = self.ev.GetImage(x)
-            if not np.array_equal(np.asarray(y), img):
-                msgs.append(f"trial {j}: evaluated point {y.tolist()} is not the evolvent image {img.tolist()} of x={x!r}")
-        self.ref.add(x, z)
+        if getattr(self, "blind", False):
+            return msgs
+        n0 = len(self.ref.trials)
+        inner = len(snap.items) - 2
+        if len(log) != j or inner != j:
+            return [f"after iteration {j}: {len(log)} evaluations logged and {inner - n0} new coordinates in the "
+                    f"search information (expected {j} and {j - n0})"]
+        xs = trial_order(run, snap)
+        if xs is None:
+            # the record does not identify which trial was made when (a C06 matter); nothing to judge here
+            # (and nothing later in this execution: the model's M depends on the order of the trials)
+            self.unjudged += 1
+            self.blind = True
+            return msgs
+        for t in range(n0 + 1, j + 1):
+            x = xs[t - 1]
+            y, z = log[t - 1]
+            if new and t >= self.new_from:
+                m, info = self.ref.judge(x)
+                msgs += m
+                self.info = info
+                if info.get("ties", 1) > 1:
+                    self.ties += 1
+                img = self.ev.GetImage(x)
+                if not np.array_equal(np.asarray(y), img):
+                    msgs.append(f"trial {t}: evaluated point {y.tolist()} is not the evolvent image {img.tolist()} of x={x!r}")
+            self.ref.add(x, z)
         return msgs
 
     def leaf(self, run):
